@@ -233,39 +233,72 @@ def _checked(bt, env):
     return ((w, bits, signed), w != exact)
 
 
+def _zero_acc(P, fn, ev, inner):
+    """The OR-accumulator of the zero test: (term, init, ok_step, elem_ok, description).
+    Either a loop-carried i8 local `t |= *b as i8` or `iter.fold(0i8, |acc, b| acc | *b as i8)`."""
+    loops = [s for s in subterms(inner) if s.op == "loop"]
+    folds = [s for s in subterms(inner) if s.op == "call" and B.cname(s) == "Iterator::fold" and len(s.a[1]) == 3]
+    if len(loops) == 1 and not folds:
+        acc = loops[0]
+        init = acc.a[2]
+        step = ev.loop_step.get((acc.a[0], acc.a[1]))
+        ok_step = elem_ok = False
+        if step is not None and step.op == "bin" and step.a[0] == "BitOr":
+            sides = [step.a[1], step.a[2]]
+            if acc in sides:
+                other = sides[1] if sides[0] is acc else sides[0]
+                ok_step = other.op == "cast" and str(other.a[2]) == "i8"
+                elem_ok = any(s.op == "call" and B.cname(s) == "Iterator::next" for s in subterms(other))
+        return acc, init, ok_step, elem_ok, "loop step=%s" % (show(strip_sites(step), 5) if step is not None else None)
+    if len(folds) == 1 and not loops:
+        acc = folds[0]
+        src, init, clo = acc.a[1]
+        clo = B.peel(clo)
+        ok_step = elem_ok = False
+        desc = "fold"
+        if clo.op == "agg" and clo.a[0][0] == "closure":
+            g = P.fns.get(clo.a[0][1])
+            if g is not None and not g.cfg.back_edges():
+                r = strip_sites(evaluate(g).ret)
+                desc = "fold closure=%s" % show(r, 5)
+                if r.op == "bin" and r.a[0] == "BitOr":
+                    a, b = r.a[1], r.a[2]
+                    for x, y in ((a, b), (b, a)):
+                        if x.op == "param" and x.a[0] == 2 and y.op == "cast" and str(y.a[2]) == "i8" and any(z.op == "param" and z.a[0] == 3 for z in subterms(y)):
+                            ok_step = True
+        s0 = B.peel(src)
+        while s0.op == "call" and B.cname(s0) in ("slice::<impl [T]>::iter", "IntoIterator::into_iter", "Iterator::copied", "Iterator::cloned"):
+            s0 = B.peel(s0.a[1][0])
+        elem_ok = s0.op == "param" and s0.a[0] == 1
+        return acc, init, ok_step, elem_ok, desc
+    return None
+
+
 def check_iszero(ctx, P, rule="E8.iszero", check_asserts=True, need=("zero", "nonzero")):
     """The branch-free zero test of byte strings, decided exhaustively over the 256 values of
     its i8 accumulator by folding the extracted term (no code is run): result must be 1 iff
     the OR of the bytes is 0, the accumulator must OR every byte, and (dev profile) no
     arithmetic Assert may fail for any value."""
+    from ..core.sym import inline
+
     fn = ctx.need_fn(rule, "<[u8] as IsZero>::is_zero", P)
     if fn is None:
         return
     ev = evaluate(fn)
-    loops = [s for s in subterms(ev.ret) if s.op == "loop"]
-    if len(loops) != 1:
-        ctx.ob(rule + ".shape", "accumulator", False, "expected exactly one loop-carried accumulator in the zero test, found %d" % len(loops), where=where(fn), weak=True)
+    whole = inline(P, ev.ret, 2, only=lambda g: g.kind != "Closure" and not g.cfg.back_edges())
+    za = _zero_acc(P, fn, ev, whole)
+    if za is None:
+        ctx.ob(rule + ".shape", "accumulator", False, "expected exactly one OR-accumulator (loop-carried local or fold) in the zero test", where=where(fn), weak=True)
         return
-    acc = loops[0]
-    init = acc.a[2]
-    step = ev.loop_step.get((acc.a[0], acc.a[1]))
+    acc, init, ok_step, elem_ok, desc = za
     ok_init = init.op == "const" and init.a[1] == 0
-    ok_step = False
-    elem_ok = False
-    if step is not None and step.op == "bin" and step.a[0] == "BitOr":
-        sides = [step.a[1], step.a[2]]
-        if acc in sides:
-            other = sides[1] if sides[0] is acc else sides[0]
-            ok_step = other.op == "cast" and str(other.a[2]) == "i8"
-            # the byte comes from iterating over self without dropping adapters
-            elem_ok = any(s.op == "call" and B.cname(s) == "Iterator::next" for s in subterms(other))
     if "nonzero" in need:
-        ctx.ob(rule + ".acc", "t = OR of every byte", ok_init and ok_step and elem_ok, "accumulator init=%s step=%s" % (show(init, 3), show(strip_sites(step), 5) if step is not None else None), where=where(fn))
+        ctx.ob(rule + ".acc", "t = OR of every byte", ok_init and ok_step and elem_ok, "accumulator init=%s %s" % (show(init, 3), desc), where=where(fn))
     bad_ad = [a for a in adapter_calls(fn) if a[1] in ELEMENT_DROPPING]
     if "nonzero" in need:
         ctx.ob(rule + ".all-bytes", "no element-dropping adapter", not bad_ad, "iterator over the byte string uses %s" % ([a[1] for a in adapter_calls(fn)]), where=where(fn))
     # fold the result for all 256 accumulator values
-    inner = ev.ret
+    inner = whole
     while inner.op == "call" and B.cname(inner) in ("From::from", "Into::into", "Choice::from") and len(inner.a[1]) == 1:
         inner = inner.a[1][0]
     wrong = []
@@ -286,21 +319,92 @@ def check_iszero(ctx, P, rule="E8.iszero", check_asserts=True, need=("zero", "no
     else:
         ctx.ob(rule + ".value", "result table[%s]" % "+".join(need), not wrong, "zero test evaluated for all 256 accumulator values (%s): %s" % ({("zero",): "OR==0 must be reported zero", ("nonzero",): "OR!=0 must be reported non-zero"}.get(tuple(need), "1 iff OR==0"), "holds (exhaustive)" if not wrong else "WRONG for %d values, e.g. OR=%d -> %d" % (len(wrong), wrong[0][0], wrong[0][1])), where=where(fn), sample={"term": show(strip_sites(inner), 8)})
     if check_asserts:
-        for b, (cond, ops) in sorted(ev.asserts.items()):
-            tj = fn.blocks[b]["term"]
-            fails = []
-            unk = None
-            if not any(s is acc for s in subterms(cond)):
-                continue
-            for v in range(-128, 128):
-                try:
-                    r = eval_int(cond, {acc: (v, 8, True)})
-                except (ValueError, KeyError) as e:
-                    unk = str(e)
-                    break
-                if bool(r[0]) != tj["expected"]:
-                    fails.append(v)
-            if unk:
-                ctx.ob(rule + ".assert", "%s@%s" % (tj["kind"], "is_zero"), False, "cannot fold assert condition (%s)" % unk, where=where(fn, b))
-            else:
-                ctx.ob(rule + ".assert", "%s" % tj["kind"], not fails, "Assert(%s) holds for all 256 accumulator values%s" % (tj["kind"], "" if not fails else ": FAILS for OR=%s" % [hex(x & 0xFF) for x in fails[:4]]), where=where(fn, b))
+        # asserts in the zero test itself (over the accumulator) and in the straight-line helpers it hands the accumulator to
+        # (over their 8-bit parameter: every value of the type is covered)
+        from .aborts import small_int_vars
+
+        todo = [(fn, ev)]
+        for _, s_ in sorted(ev.sites.items()):
+            g = P.fns.get(s_.callee[0])
+            if g is not None and g.kind != "Closure" and not g.cfg.back_edges():
+                todo.append((g, evaluate(g)))
+        for gf, gev in todo:
+            for b, (cond, ops) in sorted(gev.asserts.items()):
+                tj = gf.blocks[b]["term"]
+                if gf is fn:
+                    vs = [(acc, "i8")] if any(s is acc for s in subterms(cond)) else []
+                else:
+                    vs = small_int_vars(gev, cond)
+                if len(vs) != 1:
+                    continue
+                var, ty = vs[0]
+                fails = []
+                unk = None
+                for v in (range(-128, 128) if ty == "i8" else range(0, 256)):
+                    try:
+                        r = eval_int(cond, {var: (v, 8, ty == "i8")})
+                    except (ValueError, KeyError) as e:
+                        unk = str(e)
+                        break
+                    if bool(r[0]) != tj["expected"]:
+                        fails.append(v)
+                if unk:
+                    ctx.ob(rule + ".assert", "%s@%s" % (tj["kind"], "is_zero"), False, "cannot fold assert condition (%s)" % unk, where=where(gf, b))
+                else:
+                    ctx.ob(rule + ".assert", "%s" % tj["kind"], not fails, "Assert(%s) holds for all 256 accumulator values%s" % (tj["kind"], "" if not fails else ": FAILS for OR=%s" % [hex(x & 0xFF) for x in fails[:4]]), where=where(gf, b))
+
+
+# ---------------------------------------------------------------------------
+# 1:1 images of lists
+
+_IMG_PEEL = ("Deref::deref", "Vec::<T, A>::as_slice", "Iterator::collect", "AsRef::as_ref", "slice::<impl [T]>::to_vec", "Clone::clone", "Borrow::borrow", "Vec::<T, A>::into_boxed_slice", "FromIterator::from_iter")
+_IMG_ITER = ("slice::<impl [T]>::iter", "IntoIterator::into_iter", "Iterator::copied", "Iterator::cloned", "Iterator::enumerate", "Iterator::map")
+
+
+def image_source(P, fn, ev, t):
+    """If `t` denotes a list that holds exactly one entry per element of another list - through map/collect
+    pipelines or through a loop that pushes exactly once on every iteration - return (source term, steps);
+    otherwise (None, reason).  The source term is what the pipeline / loop iterates (a parameter, a call result)."""
+    steps = []
+    for _ in range(24):
+        while t.op in ("ref", "deref"):
+            t = t.a[0]
+        if t.op == "call" and B.cname(t) in _IMG_PEEL and len(t.a[1]) >= 1:
+            steps.append(B.cname(t))
+            t = t.a[1][0]
+            continue
+        if t.op == "call" and B.cname(t) in _IMG_ITER:
+            steps.append(B.cname(t))
+            t = t.a[1][0]
+            continue
+        if t.op == "loop":
+            # a vector accumulated in a loop: the loop pushes into this very vector once on every way round
+            init = t.a[2]
+            while init.op in ("ref", "deref"):
+                init = init.a[0]
+            if not (init.op == "call" and B.cname(init) in ("Vec::<T>::new", "Vec::<T>::with_capacity")):
+                return None, "loop-carried value is not a freshly created vector: %s" % show(init, 3)
+            header = t.a[0]
+            cfg = fn.cfg
+            found = None
+            for src, h in cfg.back_edges():
+                if h != header:
+                    continue
+                body = cfg.natural_loop(src, h)
+                pushes = [b for b in body if b in ev.sites and ev.sites[b].callee[0] == "Vec::<T, A>::push" and any(x.op == "loop" and x.a[0] == t.a[0] and x.a[1] == t.a[1] for x in subterms(ev.sites[b].args[0]))]
+                if len(pushes) != 1 or not cfg.dominates(pushes[0], src):
+                    return None, "loop at bb%d does not push exactly once on every iteration (pushes at %s)" % (h, pushes)
+                nexts = [b for b in body if b in ev.sites and ev.sites[b].callee[0] == "Iterator::next"]
+                if len(nexts) != 1:
+                    return None, "loop at bb%d has %d iterator advances" % (h, len(nexts))
+                it = B.peel(ev.sites[nexts[0]].args[0])
+                if it.op != "loop":
+                    return None, "loop iterator is not loop-carried"
+                found = it.a[2]
+            if found is None:
+                return None, "no loop with header bb%s" % header
+            steps.append("push-loop@bb%s" % header)
+            t = found
+            continue
+        break
+    return strip_sites(t), steps
